@@ -3,7 +3,9 @@
 //! count 1, timeout 1 s of virtual time) is put in flight; once it is on the wire the scripted
 //! server bytes are delivered (one chunk per read) and the connection ends as scripted.
 //!
-//! input line:  <eof|pending|err> <chunk hex>... / <eof|pending|err> <chunk hex>... / ...
+//! input line:  <eof|pending|err> <chunk hex>... [| <chunk hex>... ]* / <eof|pending|err> ... / ...
+//!   `|` separates EXCHANGES on one connection: one request per exchange, its chunks arrive once that request is on
+//!   the wire, the next request is made when the previous one has its result (reply, error or the 1 s timeout)
 //! output line: the request's result per connection, joined by " / ":
 //!   Ok(<value>) | Exception(<code>) | BadFrame | BadResponse | Io | Timeout | <Debug of anything else>
 //! optional arguments: --decode min|max; --rtu = the RTU client (FrameWriter::rtu + response parser; replies are
@@ -34,34 +36,65 @@ async fn run_case(line: String, decode: DecodeLevel, rtu: bool) -> String {
     channel.enable().await.unwrap();
     let mut out = Vec::new();
     for conn in line.split('/') {
-        let parts: Vec<&str> = conn.split_whitespace().collect();
-        let fin = parts[0].to_string();
-        let chunks: Vec<Vec<u8>> = parts[1..].iter().map(|c| unhex(c)).collect();
+        // a connection: <eof|pending|err> <chunks of exchange 1> | <chunks of exchange 2> | ...
+        // one request per exchange; the exchange's chunks are delivered once its request is on the wire
+        let (fin, rest) = {
+            let t = conn.trim();
+            let mut it = t.splitn(2, char::is_whitespace);
+            (it.next().unwrap_or("").to_string(), it.next().unwrap_or("").to_string())
+        };
+        let phases: Vec<Vec<Vec<u8>>> = rest
+            .split('|')
+            .map(|p| p.split_whitespace().map(unhex).collect())
+            .collect();
         let wire = Wire::new();
-        let ch = channel.clone();
-        let req = tokio::spawn(async move {
-            ch.read_holding_registers(
-                RequestParam::new(UnitId::new(1), Duration::from_secs(1)),
-                AddressRange::try_from(0, 1).unwrap(),
-            )
-            .await
-        });
+        let results: std::sync::Arc<std::sync::Mutex<Vec<String>>> = Default::default();
+        let n_phases = phases.len();
         let w2 = wire.clone();
-        let driver = async {
-            // wait until the request is on the wire, then let the server bytes arrive
-            for _ in 0..1000 {
-                if !w2.0.lock().unwrap().out.is_empty() {
-                    break;
+        let res2 = results.clone();
+        let chan = channel.clone();
+        let driver = async move {
+            for (k, chunks) in phases.iter().enumerate() {
+                let written = w2.0.lock().unwrap().out.len();
+                let ch = chan.clone();
+                let res3 = res2.clone();
+                // the request reports its own result, so that it is not lost when the connection ends under it
+                tokio::spawn(async move {
+                    let r = ch
+                        .read_holding_registers(
+                            RequestParam::new(UnitId::new(1), Duration::from_secs(1)),
+                            AddressRange::try_from(0, 1).unwrap(),
+                        )
+                        .await;
+                    res3.lock().unwrap().push(show(r));
+                });
+                // wait until the request is on the wire, then let the server bytes of this exchange arrive
+                for _ in 0..1000 {
+                    if w2.0.lock().unwrap().out.len() > written {
+                        break;
+                    }
+                    tokio::task::yield_now().await;
                 }
-                tokio::task::yield_now().await;
-            }
-            for c in &chunks {
-                w2.push(c);
-            }
-            match fin.as_str() {
-                "eof" => w2.set_eof(),
-                "err" => w2.set_read_error(std::io::ErrorKind::ConnectionReset),
-                _ => {}
+                for c in chunks {
+                    w2.push(c);
+                }
+                if k + 1 == n_phases {
+                    match fin.as_str() {
+                        "eof" => w2.set_eof(),
+                        "err" => w2.set_read_error(std::io::ErrorKind::ConnectionReset),
+                        _ => {}
+                    }
+                }
+                // wait for its result (reply, error, or the 1 s response timeout), at most 3 s of virtual time
+                for _ in 0..300 {
+                    if res2.lock().unwrap().len() > k {
+                        break;
+                    }
+                    tokio::time::sleep(Duration::from_millis(10)).await;
+                }
+                if res2.lock().unwrap().len() <= k {
+                    res2.lock().unwrap().push("Hang".to_string());
+                }
             }
             // a connection that stays open is dropped by the caller after 5 s of virtual time
             tokio::time::sleep(Duration::from_secs(5)).await;
@@ -70,11 +103,14 @@ async fn run_case(line: String, decode: DecodeLevel, rtu: bool) -> String {
             _ = session.run(Box::new(wire.clone())) => {}
             _ = driver => {}
         }
-        match tokio::time::timeout(Duration::from_secs(10), req).await {
-            Ok(Ok(r)) => out.push(show(r)),
-            Ok(Err(_)) => out.push("PANIC".to_string()),
-            Err(_) => out.push("Hang".to_string()),
+        // let a request that was in flight when the connection ended report its failure
+        crate::wire::settle().await;
+        // exchanges the connection did not live to see
+        let mut rs = results.lock().unwrap().clone();
+        while rs.len() < n_phases {
+            rs.push("NotRun".to_string());
         }
+        out.push(rs.join(","));
     }
     out.join(" / ")
 }
